@@ -100,3 +100,50 @@ fn c22_start_query_timer_resets() {
     assert!(get_var_id() == prior, "starting the timer does not touch the id counter");
     std::mem::forget(t);
 }
+
+// ---- parse_query: the string-driven query constructor ----------------------------------------
+// NOT REGISTERED (feature `pq`): neither harness finished in 15 min / 9.5 GB (drop glue of the parsed
+// term); parse_query is decided in Verus instead (clause #query_from_constructor, unit parsers).
+#[cfg(feature = "pq")]
+mod pq {
+use super::*;
+// The parser proper (parse_complex) is replaced by a stub that accepts or rejects the text and returns
+// an arbitrary one-term complex; what remains under check is what parse_query itself does with the
+// global state on the way to a query: EVERY text it turns into a query - with or without variables,
+// with or without the final period - must leave the initial global state behind.
+fn stub_parse_complex(_s: &str) -> Result<Unifiable, String> {
+    if kani::any() { Ok(Unifiable::SComplex(vec![Unifiable::Atom(String::new())])) } else { Err(String::new()) }
+}
+
+fn parse_query_resets(text: &str) {
+    if kani::any() { stop_query(); }
+    let prior: usize = kani::any();
+    kani::assume(prior < usize::MAX - 4);
+    set_var_id(prior);
+    match parse_query(text) {
+        Ok(q) => {
+            kani::cover!(true);
+            assert!(!query_stopped(), "a query constructor must clear the stop flag");
+            assert!(get_var_id() <= 1, "a query constructor must restart variable ids");
+            std::mem::forget(q);
+        },
+        Err(e) => { std::mem::forget(e); },
+    }
+}
+
+#[kani::proof]
+#[kani::stub(suiron::s_complex::parse_complex, stub_parse_complex)]
+#[kani::stub(suiron::Unifiable::recreate_variables, stub_recreate)]
+#[kani::stub(alloc::fmt::format, stub_format)]
+#[kani::stub(std::hash::RandomState::new, stub_random_state)]
+#[kani::unwind(12)]
+fn c22_parse_query_resets_ground() { parse_query_resets("go"); }
+
+#[kani::proof]
+#[kani::stub(suiron::s_complex::parse_complex, stub_parse_complex)]
+#[kani::stub(suiron::Unifiable::recreate_variables, stub_recreate)]
+#[kani::stub(alloc::fmt::format, stub_format)]
+#[kani::stub(std::hash::RandomState::new, stub_random_state)]
+#[kani::unwind(12)]
+fn c22_parse_query_resets_var() { parse_query_resets("p($X)."); }
+} // mod pq
